@@ -776,6 +776,49 @@ func runC06(cfg Config) {
 			}
 		}
 	}
+	// streams longer than the chunker's read buffer (10*max), chunked while a slow store still holds earlier chunks:
+	// fixed-size chunking (a chunk then ends exactly at the buffer's end), long zero runs, ordinary data — what is
+	// stored under an ID must be the bytes of the input range the index gives for it
+	for it := 0; it < cfg.N(12, 200); it++ {
+		var min, avg, max uint64
+		switch it % 3 {
+		case 0:
+			min, avg, max = 64, 64, 64 // min = avg = max: no boundary search, every chunk is max bytes
+		case 1:
+			min, avg, max = 48, 64, 256
+		default:
+			min, avg, max = 128, 128, 128
+		}
+		size := int(max)*(12+rng.Intn(40)) + rng.Intn(int(max))
+		data := randBytes(rng, size)
+		if it%4 == 3 {
+			copy(data[size/3:], make([]byte, size/3))
+		}
+		n := 1 + rng.Intn(4)
+		ws := newMemStore()
+		ws.delay = time.Duration(50+rng.Intn(400)) * time.Microsecond
+		c, _ := desync.NewChunker(bytes.NewReader(data), min, avg, max)
+		ix, err := desync.ChunkStream(context.Background(), c, ws, n)
+		caseLine := fmt.Sprintf("long-stream fn=ChunkStream min=%d avg=%d max=%d size=%d n=%d", min, avg, max, size, n)
+		rep.Count(caseLine, true, "fn:ChunkStream/long-stream", fmt.Sprintf("outcome:%v", err == nil))
+		if err != nil {
+			monitor("ChunkStream failed on a plain input with a healthy store: "+err.Error(), caseLine)
+			continue
+		}
+		if ix.Length() != int64(size) {
+			monitor("success reported but the fresh index does not cover the input", caseLine)
+		}
+		for _, ch := range ix.Chunks {
+			if int(ch.Start+ch.Size) > size || desync.Digest.Sum(data[ch.Start:ch.Start+ch.Size]) != ch.ID {
+				monitor("success reported but the fresh index misdescribes the input", caseLine)
+				break
+			}
+			if b, ok := ws.chunks[ch.ID]; !ok || !bytes.Equal(b, data[ch.Start:ch.Start+ch.Size]) {
+				monitor("success reported but a stored chunk is invalid: what the store holds under an ID of the index is not that range of the input", caseLine)
+				break
+			}
+		}
+	}
 	c06CLI(cfg, rep, rng, monitor)
 	rep.Write(cfg.Out)
 }
